@@ -919,9 +919,67 @@ func runC04NoMixture(e *core.Env) {
 	})
 }
 
+// runC04LateHalfClose: a server-streaming call over HTTP whose client has sent its one request and not yet
+// closed its send side when it cancels; the handler is waiting on its context. The handler's context ends.
+func runC04LateHalfClose(e *core.Env) {
+	htt := NewHTTPServer(&Service{}, carrierOpt{})
+	defer htt.Close()
+	seen := 0
+	e.Cases("single-request-late-half-close", e.N(10, 80), func(i int, r *rand.Rand) {
+		if seen >= 2 {
+			return // (every further case would cost the same 15 s wait for the same verdict)
+		}
+		mode := pick(r, "cancel", "deadline")
+		sc := &Script{Kind: ServerStream}
+		sc.Sender = []Op{{Op: "send", Msg: &tpb.Message{Payload: []byte(fmt.Sprintf("late-close-%d", i))}}, {Op: "gate", Gate: "never"}}
+		sc.Receiver = []Op{{Op: "recv"}, {Op: "recv"}}
+		sc.Handler = []Op{{Op: "recv"}, {Op: "signal", Gate: "handler-waiting"}, {Op: "waitctx"}}
+		run := htt.Svc.NewRun(sc, htt.Name)
+		defer htt.Svc.Forget(run)
+		vd := newVD()
+		var parent context.Context = vd
+		var end context.CancelFunc = vd.Fire
+		if mode == "cancel" {
+			parent, end = context.WithCancel(context.Background())
+		}
+		done := make(chan struct{})
+		go func() {
+			run.Exec(htt.CC, parent, 60*time.Second)
+			close(done)
+		}()
+		// the handler has its request (or has been refused it) and waits; if it cannot get there while the
+		// client's send side is open, the context is ended anyway and the handler is judged all the same
+		select {
+		case <-run.gate("handler-waiting"):
+		case <-time.After(300 * time.Millisecond):
+		}
+		end()
+		fin := false
+		select {
+		case <-run.handlerDone:
+			fin = true
+		case <-time.After(15 * time.Second):
+		}
+		e.Eval("single-request-late-half-close|"+mode, true)
+		if !fin && run.hStarted.Load() > 0 {
+			seen++
+			e.Violate("http-server/stream/handler-ctx-not-cancelled/late-half-close", fmt.Sprintf("the caller's context ended (%s) before the client had closed its send side; the server-streaming handler, waiting on its context, was still waiting 15 s later", mode), witness(run))
+		}
+		end()
+		run.Cancel()
+		run.ReleaseAll()
+		select {
+		case <-done:
+		case <-time.After(20 * time.Second):
+		}
+	})
+}
+
 func runC04(e *core.Env, nScripts, maxHooks int) {
 	curEnv = e
 	runC04Extra(e)
+	// (runs last: handlers it finds stuck stay stuck and would be in the way of the phases that look at goroutines)
+	defer runC04LateHalfClose(e)
 	runC04Descheduled(e)
 	runC04Credentials(e)
 	runC04NoMixture(e)
